@@ -41,6 +41,35 @@ class ServerError(Exception):
     pass
 
 
+class ServerInvalid(Exception):
+    """how Daphne / Autobahn reject a close code: a generic exception whose text says so"""
+
+
+class ServerInvalidValue(ValueError):
+    pass
+
+
+INVALID_TEXTS = ['Invalid close code 1011', 'invalid close code', 'INVALID CLOSE CODE: reserved',
+                 'close failed: Invalid Close Code (must be 1000 or 3000-4999)']
+
+
+class WithBytes:
+    def __bytes__(self):
+        return b'1'
+
+
+class WithStr:
+    def __str__(self):
+        return '1'
+
+
+# payloads of the wrong type: send_text takes a str, send_data bytes / bytearray / memoryview
+BAD_TEXT = [lambda: 7, lambda: b'5', lambda: bytearray(b'5'), lambda: memoryview(b'5'), lambda: True,
+            lambda: [53], lambda: (53,), lambda: None, lambda: 5.0, lambda: {'a': 1}, WithStr]
+BAD_DATA = [lambda: 'notbytes', lambda: 5, lambda: True, lambda: [1, 2, 3], lambda: (1, 2), lambda: None,
+            lambda: 5.0, lambda: {}, WithBytes, lambda: 0]
+
+
 class MyStr(str):
     pass
 
@@ -100,6 +129,8 @@ Cancelled = object()
 
 def exc_code(falcon, ex):
     from falcon import errors
+    if isinstance(ex, (ServerInvalid, ServerInvalidValue)):
+        return [11]
     if isinstance(ex, errors.OperationNotAllowed):
         return [0]
     if isinstance(ex, errors.WebSocketDisconnected):
@@ -146,6 +177,7 @@ class Session:
         self.sent_events = []   # (trace index, event object, field, snapshot at the call)
         self.send_gates = []
         self.cancel_gates = []
+        self.tlen = []
         self.loop = DetLoop()
         self.results = []
         self.pubs = []
@@ -221,12 +253,14 @@ class Session:
             return await ws.close(code, 'bye' if op[2] else None)
         if k == 2:
             if op[1][0] != 0:
-                return await ws.send_text(7)
+                j = op[1][1] if len(op[1]) > 1 else 0
+                return await ws.send_text(BAD_TEXT[j % len(BAD_TEXT)]())
             t = str(op[1][1])
             return await ws.send_text(MyStr(t) if op[1][2] == 1 else t)
         if k == 3:
             if op[1][0] != 0:
-                return await ws.send_data('notbytes')
+                j = op[1][1] if len(op[1]) > 1 else 0
+                return await ws.send_data(BAD_DATA[j % len(BAD_DATA)]())
             raw = str(op[1][1]).encode()
             kind = op[1][2]
             if kind == 0:
@@ -282,12 +316,15 @@ class Session:
             self.pubs.append(0 if ws.unaccepted else (2 if ws.closed else 1))
             if ws.ready != (not ws.unaccepted and not ws.closed):
                 self.pubs[-1] = 98
+            self.tlen.append([len(self.trace), None])
             try:
                 v = await self.do_op(ws, op)
                 self.scribble()
+                self.tlen[-1][1] = len(self.trace)
                 self.results.append([0, value_code(v)])
             except Exception as ex:
                 self.scribble()
+                self.tlen[-1][1] = len(self.trace)
                 self.results.append([1, exc_code(self.falcon, ex)])
                 if not catch:
                     self.cause = exc_code(self.falcon, ex)
@@ -353,6 +390,9 @@ class Session:
 
     async def send(self, event):
         k = self.fails.pop(0) if self.fails else [0]
+        variant = k[1] if k[0] == 5 and len(k) > 1 else 0
+        if k[0] == 5:
+            k = [5]
         t = event['type']
         if t == 'websocket.accept':
             sp = event.get('subprotocol')
@@ -389,6 +429,9 @@ class Session:
             raise ServerError('protocol accepted must be from the list')
         if k[0] == 4:
             raise RuntimeError('boom')
+        if k[0] == 5:
+            text = INVALID_TEXTS[variant % len(INVALID_TEXTS)]
+            raise (ServerInvalidValue if variant % 2 else ServerInvalid)(text)
 
     # ---- the driver
     def quiesce(self, task):
@@ -491,7 +534,7 @@ class Session:
                 cause = [3, self.cause[1]]
             else:
                 cause = [4, 0]
-            return {'cause': cause, 'mark': self.mark,
+            return {'cause': cause, 'mark': self.mark, 'tlen': self.tlen,
                     'results': self.results, 'ending': ending, 'trace': self.trace,
                     'handed': int(self.handed), 'pubs': self.pubs,
                     'pending_tasks': len(left) if ending != [2] else 0,
@@ -531,9 +574,9 @@ def gen_op(rng):
                                [1, 1015], [1, 1999], [1, 2000], [1, 1003], [1, 1007], [1, 1014], [2], [1, 0], [1, -5]]),
                 rng.choice([0, 0, 1])]
     if x < 0.42:
-        return [2, rng.choice([[0, rng.randint(1, 99), 0], [0, rng.randint(1, 99), 1], [1]])]
+        return [2, rng.choice([[0, rng.randint(1, 99), 0], [0, rng.randint(1, 99), 1], [1, rng.randrange(11)]])]
     if x < 0.50:
-        return [3, rng.choice([[0, rng.randint(1, 99), rng.randrange(4)], [0, rng.randint(1, 99), rng.randrange(4)], [1]])]
+        return [3, rng.choice([[0, rng.randint(1, 99), rng.randrange(4)], [0, rng.randint(1, 99), rng.randrange(4)], [1, rng.randrange(10)]])]
     if x < 0.56:
         return [4, rng.choice([0, 1]), rng.randint(1, 99)]
     if x < 0.68:
@@ -567,7 +610,7 @@ def gen_fails(rng):
     n = rng.randint(1, 5)
     fl = [[0]] * n
     for _ in range(rng.choice([1, 1, 2])):
-        fl[rng.randrange(n)] = rng.choice([[1], [1, 1001], [1, 1006], [2], [3], [4]])
+        fl[rng.randrange(n)] = rng.choice([[1], [1, 1001], [1, 1006], [2], [3], [4], [5, rng.randrange(4)], [5, rng.randrange(4)]])
     return [list(x) for x in fl]
 
 
@@ -598,7 +641,7 @@ def wire_case(case):
 
 EXC = {0: 'OperationNotAllowed', 1: 'WebSocketDisconnected', 2: 'PayloadTypeError', 3: 'ValueError',
        4: 'TypeError', 5: 'OSError', 6: 'other exception', 7: 'AssertionError', 8: 'HTTPError',
-       9: 'HTTPStatus', 10: 'scripted exception'}
+       9: 'HTTPStatus', 10: 'scripted exception', 11: 'server exception "invalid close code"'}
 OPN = ['accept', 'close', 'send_text', 'send_data', 'send_media', 'receive_text', 'receive_data',
        'receive_media', 'raise', 'advance', 'receive_cancelled']
 
@@ -638,14 +681,25 @@ def judge(ctx, model, cases, reals, tag):
                     po.append([4, 0 if op[0] == 10 else op[0] - 5, norm_client(client)[k], res])
                     idx_p.append((i, j))
                 k += 1
-    wo, idx_w = [], []
+    wo, idx_w, ro = [], [], []
     for i, (case, real) in enumerate(zip(cases, reals)):
         (ver, cap, err, hk, park), connect_ok, mw, route, client, fails = (cfg5(case[0]),) + tuple(case[1:])
         if connect_ok and real['ending'] != [2]:
             h, r = VERSIONS[ver]
             wo.append([5, [h, r, cap, err, hk], real['cause'][0], real['cause'][1], real['trace'][real['mark']:]])
             idx_w.append(i)
+            ro.append([7, real['cause'][0], real['trace'][real['mark']:]])
+    qo, idx_q = [], []
+    for i, (case, real) in enumerate(zip(cases, reals)):
+        (ver, cap, err, hk, park), connect_ok, mw, route, client, fails = (cfg5(case[0]),) + tuple(case[1:])
+        ops = [o for o, _ in mw] + ([o for o, _ in route[1]] if route[0] == 0 else [])
+        for j, (op, tl) in enumerate(zip(ops, real.get('tlen', []))):
+            if op[0] in (2, 3) and tl[1] is not None:
+                qo.append([6, op, tl[0], tl[1]])
+                idx_q.append((i, j))
+    qres = model.run_many(qo) if qo else []
     wres = model.run_many(wo) if wo else []
+    rres = model.run_many(ro) if ro else []
     souts = model.run_many(so)
     mres = model.run_many(mo) if mo else []
     pres = model.run_many(po) if po else []
@@ -662,6 +716,13 @@ def judge(ctx, model, cases, reals, tag):
             bad.setdefault(i, []).append(('close-code', 'the close code sent by the application wrapper is not the one '
                                           'documented for the way the responder ended (1000 / 3404 / 3405 / 3000+status / '
                                           'error_close_code or fallback)'))
+    for i, o in zip(idx_w, rres):
+        if o != 1:
+            bad.setdefault(i, []).append(('close-retry', 'the server rejected a close with "invalid close code" and the wrapper '
+                                          'did not fall back to another close: the client is left connected without a close'))
+    for (i, j), o in zip(idx_q, qres):
+        if o != 1:
+            bad.setdefault(i, []).append(('bad-payload-sent', 'a payload of the wrong type was put on the wire (op %d)' % j))
     for (i, j), o in zip(idx_m, mres):
         if o != 1:
             bad.setdefault(i, []).append(('misuse', j))
@@ -758,6 +819,29 @@ def small_cases(depth, full):
     return out
 
 
+def close_fault_cases():
+    """server faults placed exactly on the websocket.close events the wrapper / responder send:
+    every fault kind (incl. the "invalid close code" rejections in their variants) on the first
+    close and on the one after it, for normal return, HTTP error, unexpected exception, a
+    responder-made close, before and after accept, valid and invalid configured error codes"""
+    out = []
+    acc = [[0, [0], 0], 0]
+    scripts = [
+        ([acc], 1), ([acc, [[8, 2, 0], 0]], 1), ([acc, [[8, 0, 403], 0]], 1), ([[[8, 2, 0], 0]], 0),
+        ([acc, [[2, [0, 5, 0]], 0], [[8, 2, 0], 0]], 2), ([acc, [[1, [1, 1011], 0], 1]], 1),
+        ([acc, [[1, [0], 0], 1], [[5], 1]], 1), ([acc, [[8, 3, 1001], 0]], 1),
+    ]
+    faults = [[5, 0], [5, 1], [5, 2], [5, 3], [4], [1], [2], [3]]
+    for sc, idx in scripts:
+        for err in (1011, 1000, 4000, 999, 1005):
+            for f1 in faults:
+                for f2 in ([0], [5, 1], [4]):
+                    fl = [[0]] * idx + [f1, f2]
+                    for ver in ('2.0', '2.3'):
+                        out.append(((ver, 2, err, 0, 0), 1, [], [0, sc], [[0, 5, 0], [2, [1001], 0]], [list(x) for x in fl]))
+    return out
+
+
 def main(ctx):
     import falcon
     model = common.Model(ctx)
@@ -801,6 +885,8 @@ def main(ctx):
     # interleave so that a deadline cut keeps both kinds
     n = 12000 if quick else 120000
     cases = [gen_case(ctx.rng) for _ in range(n)]
+    cf = close_fault_cases()
+    ctx.cov['close_fault_cases'] = batch(cf if not quick else ctx.rng.sample(cf, 700), 'closefault', cut=False)
     d_small = batch(ex[:1000], 'small', cut=False)
     d_rnd = batch(cases[:2000], 'rnd', cut=False)
     # alternate so that a cut keeps both kinds in proportion
